@@ -84,3 +84,11 @@ claim("C14",
       "unsupported combinations raise; y and z are never modified (also when A.H returns its argument); the returned array is the one updated.",
       "Class contracts of the algorithms from C12/C13/C15 (convergence to fixed points cited); conjugate of the data term from the table; A.N = A^H A (C04).",
       "contract-based deductive verification (symbolic execution of the real set-up code over the full option lattice; Gram/problem algebra; z3)")
+
+claim("C05",
+      "The real fft/ifft/_fftc/_ifftc are executed symbolically on arrays of symbolic extents against the numpy.fft contracts and proved equal, "
+      "coefficient by coefficient, to the explicit DFT matrix W(n,(j-c)(k-c)) (c = n//2 centred, 0 otherwise) for every axes subset (incl. negative), "
+      "both norms, centred output shapes (through the resize contract), via the index-congruence lemma with explicit witness; dtype postcondition.",
+      "numpy fftn/ifftn/fftshift/ifftshift contracts and twiddle periodicity assumed (probed natively against the DFT matrix); unitarity of the "
+      "orthonormal DFT assumed (round trip / norm preservation follow from the proved kernel identity); rank <= 2 quick / 3 thorough; FFT rounding not bounded.",
+      "contract-based deductive verification (symbolic execution to linear forms with abstract twiddle kernel; rotation rule; congruence lemma; z3)")
